@@ -451,8 +451,13 @@ func (w *c05) Run(t *rt.Tape, trace bool) *core.Result {
 		return res
 	}
 	if len(o.RR.Crashed) > 0 {
+		// the program of the session whose task died (known findings are keyed by program)
+		name := prog.Name
+		if c2 != nil && strings.Contains(o.RR.Crashed[0].ID, "-par#") {
+			name = c2.Prog.Name
+		}
 		res.Fail = &core.Failure{Clause: "panic", Detail: core.CrashDetail(o.RR),
-			Key: fmt.Sprintf("panic|%s|%v", prog.Name, o.RR.Crashed[0].Panic)}
+			Key: fmt.Sprintf("panic|%s|%v", name, o.RR.Crashed[0].Panic)}
 		return res
 	}
 	judge := func(o *Out, c *Case, who string) *core.Result {
